@@ -16,7 +16,21 @@ def c02(cx):
     cx.validate("Trace_Server", "Trace_C02.cfg", r["trace"], what="slot rule, exhaustive short sequences + random permutations")
 
 
-PLANS = {"C02": c02}
+def c01(cx):
+    cx.assumptions += [
+        "signatures are abstracted (Dolev-Yao); that no other byte string verifies is cryptography and is assumed",
+        "timeslots and clocks in traces stay below 2^30 (TLC integers); the uint32 extremes are C20's subject",
+    ]
+    q = cx.tier == QUICK
+    cx.mc("MC_Accept", "MC_Accept.cfg", {"Defects": "{}", "MaxNow": 12 if q else 16, "MaxReports": 1 if q else 2},
+          note="datagram alphabet relative to (now, offset): ts boundaries x 5 values x 5 signers x ok/not, 3 ids; "
+               "clock jumps 1/week/window, lagging rotation, restart with catch-up")
+    r = cx.drv_ok("accept")
+    cx.validate("Trace_Server", "Trace_C01.cfg", r["trace"],
+                what="mutation menu of datagrams at 7 (now, offset) configurations incl. held rotation and start-up catch-up")
+
+
+PLANS = {"C01": c01, "C02": c02}
 
 
 def replay(cx, path):
